@@ -365,13 +365,20 @@ func (obj *SparseConstInt16VectorJointIterator) Ok() bool {
          !(obj.s2.GetInt16() == int16(0))
 }
 func (obj *SparseConstInt16VectorJointIterator) Next() {
+next:
   ok1 := obj.it1.Ok()
   ok2 := obj.it2.Ok()
+  // true if the element at the current position was taken from the
+  // first / second iterator (a zero value does not mean that the
+  // iterator has no element there)
+  has1 := false
+  has2 := false
   obj.s1 = ConstInt16(0)
-  obj.s2 = ConstInt16(0)
+  obj.s2 = ConstInt16(0.0)
   if ok1 {
     obj.idx = obj.it1.Index()
     obj.s1 = obj.it1.GET()
+    has1 = true
   }
   if ok2 {
     switch {
@@ -379,17 +386,23 @@ func (obj *SparseConstInt16VectorJointIterator) Next() {
       obj.idx = obj.it2.Index()
       obj.s1 = ConstInt16(0)
       obj.s2 = obj.it2.GetConst()
+      has1 = false
+      has2 = true
     case obj.idx == obj.it2.Index():
       obj.s2 = obj.it2.GetConst()
+      has2 = true
     }
   }
-  if obj.s1 != ConstInt16(0) {
+  if has1 {
     obj.it1.Next()
   }
-  if obj.s2 != ConstInt16(0) {
+  if has2 {
     obj.it2.Next()
-  } else {
-    obj.s2 = ConstInt16(0.0)
+  }
+  // skip positions where both elements are zero, stop only when both
+  // iterators are exhausted
+  if !obj.Ok() && (has1 || has2) {
+    goto next
   }
 }
 func (obj *SparseConstInt16VectorJointIterator) GetConst() (ConstScalar, ConstScalar) {
